@@ -595,7 +595,7 @@ class DataPack:
             token.string[1:-1],
             file_path if file_path is not None else tokenizer.file_path,
             token.line,
-            token.col,
+            token.col + (0 if token.token_type == TokenType.FUNC else 1),
             file_string if file_string is not None else tokenizer.file_string,
             prefix,
         )
